@@ -647,3 +647,102 @@ func SubSecond(way bool, regime Regime, tickNs, eps, delta int64, sameCS bool) *
 	}
 	return h
 }
+
+// Wide returns a history that exercises the field widths of an update rather than their
+// number: one parent version with n child positions (4097-70000), nearly all of them one
+// filler child without later versions; a handful of "hot" children sit on both sides of every
+// power of two from 2^8 to 2^16 and at i, i+4096, i+65536 (the same child, and different
+// children edited in the same instant with the same version number); their later versions
+// carry version numbers around 65535/65536/131072, instants more than 2^36 s apart, and
+// sub-second ties (model ticks are milliseconds). Few updates per parent.
+func Wide(r *gen.R, way bool, regime Regime, n int) *H {
+	h := &H{Way: way, Regime: regime, Eps: 30, TickNs: 1e6}
+	tps := h.TPS()
+	T := int64(1400000000) * tps
+	if regime == Stamp {
+		T = int64(1250000000) * tps
+	}
+	typ := func() osm.Type {
+		if way {
+			return osm.TypeNode
+		}
+		return []osm.Type{osm.TypeNode, osm.TypeNode, osm.TypeWay, osm.TypeRelation}[r.Intn(4)]
+	}
+	mk := func(ref int64, later [][2]int64, cs int64) Child {
+		ch := Child{Type: typ(), Ref: ref}
+		ch.Vers = append(ch.Vers, Ver{Version: 1, Visible: true, Sec: T - 100000*tps, CS: 40})
+		for _, l := range later {
+			ch.Vers = append(ch.Vers, Ver{Version: int(l[0]), Visible: true, Sec: T + l[1], CS: cs})
+		}
+		for k := range ch.Vers {
+			if ch.Type == osm.TypeNode {
+				ch.Vers[k].Lat = float64(ref%80) + float64(k)/1000
+				ch.Vers[k].Lon = -float64(ref%80) - float64(k)/1000
+			}
+			if r.Chance(0.3) {
+				ch.Vers[k].Zone = r.Intn(len(Zones))
+			}
+		}
+		return ch
+	}
+	far := (int64(1)<<36 + 5) * tps // more than 2^36 seconds later
+	patterns := [][][2]int64{
+		{{2, 100 * tps}, {3, 100 * tps}},                                      // one second, two versions
+		{{65535, 50*tps + 100}, {65536, 50*tps + 200}, {65537, 50*tps + 200}}, // version crosses 16 bits inside one second
+		{{2, 10 * tps}, {3, far}},                                             // instants 2^36 s apart
+		{{131071, 70 * tps}, {131072, 70*tps + 1}, {131073, 80 * tps}},        // 17 bits, 1 ms apart
+		{{2, 100*tps + 999}, {3, 101 * tps}, {70000, 101*tps + 1}},            // second boundary
+		{{65536, 20 * tps}, {65537, far + 3}, {196608, far + 3}},              // all three widths at once
+	}
+	h.Children = append(h.Children, mk(10, nil, 0)) // filler
+	refs := make([]Ref, n)
+	place := func(c int, pos ...int) {
+		for _, p := range pos {
+			if p >= 0 && p < n {
+				refs[p] = Ref{Child: c}
+			}
+		}
+	}
+	add := func(p [][2]int64, cs int64) int {
+		h.Children = append(h.Children, mk(int64(10+len(h.Children)), p, cs))
+		return len(h.Children) - 1
+	}
+	// the same child at i, i+4096, i+65536
+	a := add(patterns[0], 60)
+	place(a, 3, 3+4096, 3+65536)
+	// different children at i, i+4096, i+65536 edited in the same instant with equal versions
+	for k, off := range []int{0, 4096, 65536, 8192} {
+		c := add(patterns[(1+k/2)%2], 61)
+		place(c, 200+off)
+	}
+	for k, off := range []int{0, 4096, 65536} {
+		c := add(patterns[3], 62)
+		place(c, 1000+off)
+		_ = k
+	}
+	// both sides of every power of two
+	hot := []int{}
+	for k := 0; k < 5; k++ {
+		hot = append(hot, add(patterns[(2+k)%len(patterns)], int64(70+k)))
+	}
+	q := 0
+	for e := 8; e <= 16; e++ {
+		for _, p := range []int{1<<e - 1, 1 << e, 1<<e + 1} {
+			place(hot[q%len(hot)], p)
+			q++
+		}
+	}
+	place(hot[r.Intn(len(hot))], n-1, 0)
+	for k := 0; k < 6; k++ { // a few random positions
+		place(hot[r.Intn(len(hot))], r.Intn(n))
+	}
+	if !way {
+		for j := range refs {
+			if refs[j].Child != 0 {
+				refs[j].Role = []string{"", "outer", "inner"}[r.Intn(3)]
+			}
+		}
+	}
+	h.Parents = []PVer{{Version: 1, Visible: true, Sec: T, CS: 55, Refs: refs}}
+	return h
+}
